@@ -204,6 +204,22 @@ theorem C19_multi_reject (rel : Relation) (h0 : 0 < rel.length) (h1 : rel.length
   ⟨fun h => readMultiSegmentFile_small rel h0 h1 a b opts h,
    fun h ha => readMultiSegmentFile_negative rel h0 h1 a b opts h ha⟩
 
+/-- non-vacuity of the hypotheses of C19_segblock / C19_multi / C19_multi_reject: a relation of two segment
+files (one block each, the second with a partial tail), segment size = one block -/
+example : (∀ f ∈ ([⟨[zeroBlock], []⟩, ⟨[zeroBlock], [1]⟩] : Relation), f.WF) ∧
+    SmallFiles [⟨[zeroBlock], []⟩, ⟨[zeroBlock], [1]⟩] ∧
+    8192 ≤ effSegSize (some ⟨0, 8192⟩) ∧ effSegSize (some ⟨0, 100⟩) < 8192 := by
+  have hz : zeroBlock.WF := ⟨by decide, by simp [zeroBlock]⟩
+  refine ⟨?_, ?_, by decide, by decide⟩
+  · intro f hf
+    simp only [List.mem_cons, List.mem_nil_iff, or_false] at hf
+    rcases hf with rfl | rfl
+    · exact ⟨fun b hb => by simp only [List.mem_cons, List.mem_nil_iff, or_false] at hb; exact hb ▸ hz, by decide⟩
+    · exact ⟨fun b hb => by simp only [List.mem_cons, List.mem_nil_iff, or_false] at hb; exact hb ▸ hz, by decide⟩
+  · intro f hf
+    simp only [List.mem_cons, List.mem_nil_iff, or_false] at hf
+    rcases hf with rfl | rfl <;> decide
+
 /-! ## checksum accounting (any checksum function `ck`) -/
 
 /-- For EVERY byte string, every checksum function and every segment number: VerifyFileChecksums returns
